@@ -7,16 +7,16 @@ from .. import jobs, workload as w
 META = dict(
     level="exploration",
     design_ref="DESIGN.md §5 C53",
-    technique="end-to-end differential monitor: real solves with targets exactly on each matching scale (lower and upper nf) and on the initial scale, paired with targets displaced by a relative epsilon inside the same patch; ||O(mu)-O(mu(1+-eps))|| bounded by C*eps*||O|| plus the stored integration errors",
+    technique="end-to-end differential monitor: real solves with targets exactly on each matching scale (lower and upper nf) and on the initial scale, paired with targets displaced by a relative epsilon inside the same patch; ||O(mu)-O(mu(1+-eps))|| for eps in {1e-6,1e-4,1e-3}: bounded at 1e-6, and required to scale with eps between 1e-4 and 1e-3",
     level_text="Real solves (orders 1-3, scale variation none/expanded/exponentiated with xi^2 in {1/4,4}, upward and downward paths); for every boundary target the operator must agree with the operator at a displaced scale in the same patch up to O(eps).",
-    level_note="Bound: ||dO||_max <= 50*eps*||O||_max + (err1+err2)_max with eps in {1e-6,1e-4}; a missing or extra scale-variation/matching factor is O(a_s*gamma*L) ~ 1e-1 relative, orders of magnitude above the bound. The noise term is the solver's own reported integration error, never tuned.",
-    rule="case = (configuration, boundary kind, eps); distinct by configuration+pair; non-trivial = the pair straddles a real boundary (wall with lower nf, wall with upper nf, or the initial scale) and both operators were produced",
+    level_note="Two tests per boundary: (A) ||O(mu)-O(mu(1+-1e-6))||_max <= 500*1e-6*||O||_max + reported integration errors; (B) where the difference at eps=1e-4 exceeds 10x the integration error, the difference at eps=1e-3 must be >= 4x larger (a continuous function gives ~10x, a jump ~1x). A missing or extra scale-variation/matching factor is O(a_s*gamma*L) ~ 1e-1 relative. (A first version used a Lipschitz constant of 50 also at eps=1e-4 and raised a false alarm in the thorough tier at mu0=1.37 GeV, where a_s*gamma in x-space is ~85.)",
+    rule="case = (configuration, boundary kind) with three displacements; distinct by configuration+pair; non-trivial = the pair straddles a real boundary (wall with lower nf, wall with upper nf, or the initial scale) and both operators were produced",
     min_nontrivial=15,
     required_hits=["pairs_compared"],
     max_inconclusive_frac=0.2,
 )
 
-C_LIP = 50.0
+C_LIP = 500.0
 
 
 def make_cfg(rng, qcd, scvar, direction, pt="unpol"):
@@ -45,7 +45,7 @@ def make_cfg(rng, qcd, scvar, direction, pt="unpol"):
             targets.append(t)
         return targets.index(t)
 
-    for eps in (1e-6, 1e-4):
+    for eps in (1e-6, 1e-4, 1e-3):
         # wall with the lower nf: approach from below; wall with the upper nf: approach from above
         pairs.append(("wall-lower-nf", eps, add(wall, nlow), add(wall * (1 - eps), nlow)))
         pairs.append(("wall-upper-nf", eps, add(wall, nup), add(wall * (1 + eps), nup)))
@@ -106,7 +106,7 @@ def run_case(cfg):
         norm = float(max(np.abs(o1).max(), np.abs(o2).max()))
         noise = float((0.0 if e1 is None else np.abs(e1).max()) + (0.0 if e2 is None else np.abs(e2).max()))
         idx = np.unravel_index(np.argmax(np.abs(o1 - o2)), o1.shape)
-        out.append(dict(kind=kind, eps=eps, diff=d, norm=norm, noise=noise, bound=C_LIP * eps * norm + noise, at=[int(x) for x in idx], t_on=ti, t_off=tj))
+        out.append(dict(kind=kind, eps=eps, diff=d, norm=norm, noise=noise, at=[int(x) for x in idx], t_on=ti, t_off=tj))
     return dict(status="ok", pairs=out)
 
 
@@ -145,20 +145,31 @@ def run(ck):
             else:
                 ck.inconclusive("solver crashed (C04's business): " + res["msg"][:80])
             continue
+        groups = {}
         for p in res["pairs"]:
-            key = (ckey, p["kind"], p["eps"])
             if p.get("missing"):
-                ck.case(key, nontrivial=False)
+                ck.case((ckey, p["kind"], p["eps"]), nontrivial=False)
                 ck.inconclusive("target not found in archive")
                 continue
-            ck.hit("pairs_compared")
-            ck.case(key, nontrivial=True, sample=dict(order=cfg["qcd"], scvar=cfg["scvar"], xif=cfg["xif"], direction=cfg["_direction"], **{k: p[k] for k in ("kind", "eps", "diff", "bound", "norm", "noise")}))
-            if p["diff"] > p["bound"]:
-                kind = p["kind"].rstrip("+-")
-                ck.violation(
-                    f"C53/{kind}/{cfg['scvar'] or 'unvaried'}/{cfg['_direction']}",
-                    f"operator jumps by {p['diff']:.3g} (bound {p['bound']:.3g}, norm {p['norm']:.3g}) between target {p['t_on']} and {p['t_off']}",
-                    dict(cfg=cfg, pair=p),
-                )
+            groups.setdefault(p["kind"], {})[p["eps"]] = p
+        for kind, g in groups.items():
+            if len(g) < 3:
+                continue
+            ck.hit("pairs_compared", 3)
+            p6, p4, p3 = g[1e-6], g[1e-4], g[1e-3]
+            noise = max(p6["noise"], p4["noise"], p3["noise"])
+            # (A) tiny displacement: the operator must not move by more than a generous Lipschitz bound
+            bound6 = C_LIP * 1e-6 * p6["norm"] + noise
+            # (B) scaling: a continuous function moves ~10x more over a 10x larger displacement, a jump does not
+            ratio = p3["diff"] / p4["diff"] if p4["diff"] > 0 else float("inf")
+            decided_b = p4["diff"] > 10 * noise
+            key = (ckey, kind)
+            ck.case(key, nontrivial=True, sample=dict(order=cfg["qcd"], scvar=cfg["scvar"], xif=cfg["xif"], direction=cfg["_direction"], kind=kind, diff_1e6=p6["diff"], diff_1e4=p4["diff"], diff_1e3=p3["diff"], norm=p4["norm"], noise=noise, ratio=ratio))
+            kind_ = kind.rstrip("+-")
+            vkey = f"C53/{kind_}/{cfg['scvar'] or 'unvaried'}/{cfg['_direction']}"
+            if p6["diff"] > bound6:
+                ck.violation(vkey, f"operator jumps by {p6['diff']:.3g} (bound {bound6:.3g}, norm {p6['norm']:.3g}) between target {p6['t_on']} and {p6['t_off']}", dict(cfg=cfg, pairs=[p6, p4, p3]))
+            elif decided_b and ratio < 4.0:
+                ck.violation(vkey, f"operator difference does not scale with the displacement: {p4['diff']:.3g} at eps=1e-4, {p3['diff']:.3g} at eps=1e-3 (ratio {ratio:.2f}, continuity gives ~10) near target {p4['t_on']}", dict(cfg=cfg, pairs=[p6, p4, p3]))
             else:
                 ck.ok()
